@@ -503,7 +503,7 @@ def mutation_queries(prop, tier):
     from . import shapes
     qs = []
     for root in (1, 2):
-        T = (3 if root == 2 else 2) if tier == "quick" else (5 if root == 2 else 6)
+        T = (3 if root == 2 else 4) if tier == "quick" else (5 if root == 2 else 6)
         for node in shapes.gen_shapes(root, T, ("T", "S1"), 3):
             b, m = shapes.skeleton(node)
             tags = [("full", shapes.full_script(node))]
@@ -511,6 +511,8 @@ def mutation_queries(prop, tier):
             if cs:
                 tags.append(("skip", shapes.full_script(node, plan={id(cs[0]): "skip"})))
             tags.append(("leave@0", shapes.full_script(node, plan={("leave", id(node)): 0})))
+            if tier == "quick":
+                tags = tags[:1] if root == 1 else [tags[0], tags[-1]]
             for tag, s in tags:
                 for i in range(1, len(b) - 1):        # first/last byte are checked by init itself
                     if not m[i]:
